@@ -30,6 +30,8 @@ theorem entropy_perm (log : ℝ → ℝ) (ps qs : List ℝ) (h : ps.Perm qs) :
     entropyVals log ps = entropyVals log qs :=
   entropyVals_perm log h
 
+example : [(1 : ℝ) / 2, 0, 1 / 2].Perm [0, 1 / 2, 1 / 2] := List.Perm.swap _ _ _
+
 /-- **Zero-probability outcomes contribute nothing**: removing (equivalently, inserting) zero
 entries does not change the entropy, for any `log` function. -/
 theorem entropy_zero_irrelevant (log : ℝ → ℝ) (ps : List ℝ) :
@@ -99,6 +101,14 @@ theorem entropyOf_set {σ : Type} [DecidableEq σ] (t : Tab (List σ) ℝ) (X X'
     entropyOf (Real.logb 2) t X = entropyOf (Real.logb 2) t X' :=
   entropyOf_congr t h
 
+/-- Two perfectly correlated fair bits with a stored zero row: `H(X₀) = 1` bit. -/
+example : entropyOf (Real.logb 2)
+    ([(["0", "0"], 1 / 2), (["0", "1"], 0), (["1", "1"], 1 / 2)] : Tab (List String) ℝ) [0]
+      = 1 := by
+  rw [entropyOf_eq_def]
+  simp [project, dedup, fibreSum]
+  norm_num
+
 example : ∀ v, v ∈ [2, 0, 2] ↔ v ∈ [0, 2] := by intro v; simp; tauto
 
 /-! ### Conditional entropy and mutual information as entropy differences -/
@@ -161,6 +171,15 @@ theorem mi_table {σ : Type} [DecidableEq σ] (t : Tab (List σ) ℝ) (X Y Z : L
         (by intro v; simp only [mem_vunion, List.mem_append]),
     ← entropyOf_vnorm]
 
+/-- … and their mutual information, computed from the joint table, is 1 bit. -/
+example : Comb.eval (Rat.castHom ℝ) (entropyOf (Real.logb 2)
+    ([(["0", "0"], 1 / 2), (["0", "1"], 0), (["1", "1"], 1 / 2)] : Tab (List String) ℝ))
+      (cmiC [0] [1] []) = 1 := by
+  rw [mi_table]
+  simp only [entropyOf_eq_def]
+  simp [project, dedup, fibreSum]
+  norm_num
+
 /-! ### Rényi, Tsallis, extropy, perplexity -/
 
 /-- **Rényi order 0** is `log₂ |support|` (Hartley entropy). -/
@@ -186,6 +205,10 @@ theorem lmax_spec (ps : List ℝ) (hne : ps ≠ []) (hnn : ∀ p ∈ ps, 0 ≤ p
 
 example : lmax [(1 : ℝ) / 4, 1 / 2, 1 / 4] = 1 / 2 := by
   unfold lmax; norm_num
+example : [(1 : ℝ) / 4, 1 / 2, 1 / 4] ≠ [] ∧ ∀ p ∈ [(1 : ℝ) / 4, 1 / 2, 1 / 4], 0 ≤ p := by
+  refine ⟨by simp, ?_⟩
+  intro p hp; simp at hp; rcases hp with rfl | rfl | rfl <;> norm_num
+example : (2 : ℝ) ≠ 0 ∧ (2 : ℝ) ≠ 1 ∧ (0 : ℝ) < 2 := by norm_num
 
 /-- **Rényi, generic order** `a ∉ {0, 1}`: `(1/(1−a)) log₂ Σ_{p ≠ 0} pᵃ` over the support. -/
 theorem renyi_fin (a : ℝ) (h0 : a ≠ 0) (h1 : a ≠ 1) (ps : List ℝ) :
